@@ -150,9 +150,9 @@ Proof.
         rewrite N.eqb_refl. reflexivity.
   - destruct (lookup k (recs s)) as [r|] eqn:E; [|intro H; inversion H; subst; assumption].
     destruct (ralive r) eqn:Al; intro H; inversion H; subst; [|assumption].
-    destruct (Z.eqb (rexp r) 0).
-    + eapply good_rem; eauto; [apply keeps_replace; reflexivity | intros x Hx; apply rem_In in Hx; tauto].
-    + eapply good_ins; eauto; [apply keeps_replace; reflexivity|]. erewrite alive_replace_same; eauto.
+    eapply good_same_slice; eauto. intros k' Hk'. destruct (N.eq_dec k' k) as [->|Hne].
+    + erewrite alive_replace_same; eauto.
+    + eapply keeps_replace; eauto.
   - destruct (lookup k (recs s)) as [r|] eqn:E; [|intro H; inversion H; subst; assumption].
     destruct (ralive r) eqn:Al; intro H; inversion H; subst; [|assumption].
     destruct (Z.eqb e 0).
@@ -331,9 +331,11 @@ Proof.
       eapply inv_mk; eauto; [|rewrite Hb; reflexivity].
       assert (KA : keeps_alive (recs s) (replace k x' (recs s)) k) by (apply keeps_replace; reflexivity).
       assert (AK : alive_k k (replace k x' (recs s)) = true) by (erewrite alive_replace_same; eauto).
-      destruct (Z.eqb e 0).
-      * eapply good_rem; eauto. intros y Hy; apply rem_In in Hy; tauto.
-      * eapply good_ins; eauto.
+      rewrite orb_false_r. destruct (match nexp with Some _ => true | None => false end).
+      * destruct (Z.eqb e 0).
+        -- eapply good_rem; eauto. intros y Hy; apply rem_In in Hy; tauto.
+        -- eapply good_ins; eauto.
+      * eapply good_same_slice; eauto. intros k' Hk'. destruct (N.eq_dec k' k) as [->|Hne]; auto.
   - destruct (reindex cfg_now sel (recs s) (slice s) (cl s)) as [sl cl'] eqn:R.
     intro H; inversion H; subst. eapply inv_mk; eauto. eapply good_reindex; eauto.
 Qed.
